@@ -247,6 +247,12 @@ void __sanitizer_cov_trace_pc_guard(uint32_t *guard) {
     if (id < MAX_GUARDS) g_hit[id] = 1;
     if (tl_rt) point(id, false);
 }
+// gcc builds (-fsanitize-coverage=trace-pc, variant sim-tp): one callback per basic block, identified by its
+// return address.  Same role as the clang guards: a preemption point at every control-flow edge, here in code
+// generated by the shipped compiler.  No pc table in this mode, so no per-edge coverage map.
+void __sanitizer_cov_trace_pc(void) {
+    if (tl_rt) point((uint32_t)((uintptr_t)__builtin_return_address(0) & 0x7fffffffu) | 0x80000000u, false);
+}
 }
 
 SchedStats schedRun(int nTasks, const SchedConfig &cfg, const TaskBody &body) {
